@@ -2,8 +2,8 @@
 """Confirm a seeded change and run our checks against it.
 
 usage: tools/tryseed.py <name> <worktree-with-SEED> <PROP> [<PROP> ...]
-Copies SEED/ to /verif/seeded/<name>/, then in a *fresh* scratch worktree: baseline suite with the patch,
-demonstration with and without the patch; then applies the patch to /repo, runs the given checks, reverts /repo.
+Copies SEED/ to /verif/seeded/<name>/, then in a *fresh* scratch worktree: demonstration without the patch, then with it,
+baseline suite with the patch, and the given checks run against that worktree (PYTHONPATH); /repo is not touched.
 """
 import json, os, shutil, subprocess, sys, glob
 
@@ -36,19 +36,16 @@ try:
     res["demo_with_patch_exit"] = r1.returncode
     t = run(["/venv/bin/python", "-m", "pytest", "-ra", "-q", "-p", "no:cacheprovider", "--timeout=900", "--continue-on-collection-errors"], timeout=900)
     res["suite_with_patch_tail"] = t.stdout.strip().split("\n")[-1]
-finally:
-    subprocess.run(["git", "-C", "/repo", "worktree", "remove", "--force", scratch], capture_output=True)
-# our checks against /repo with the patch applied
-assert subprocess.run(["git", "-C", "/repo", "status", "--porcelain"], capture_output=True, text=True).stdout.strip() == "", "/repo not clean"
-subprocess.run(["git", "-C", "/repo", "apply", patch], check=True)
-try:
+    # our checks against the scratch worktree with the patch applied (PYTHONPATH puts it in front of the editable install),
+    # so /repo itself is not touched and several seeds can be tried at the same time
     res["checks"] = {}
+    env2 = dict(os.environ, PYTHONPATH=scratch + "/src")
     for p in props:
-        c = subprocess.run(["./check", p, "--tier", "quick"], cwd="/verif", capture_output=True, text=True, timeout=1800)
+        c = subprocess.run(["./check", p, "--tier", "quick"], cwd="/verif", capture_output=True, text=True, timeout=3600, env=env2)
         viol = [l for l in c.stdout.split("\n") if l.startswith("VIOLATION")]
         sigs = sorted({l.strip() for l in c.stdout.split("\n") if l.strip().startswith("signature:")})[:4]
         res["checks"][p] = {"exit": c.returncode, "violations": len(viol), "signatures": sigs}
 finally:
-    subprocess.run(["git", "-C", "/repo", "checkout", "--", "."], check=True)
+    subprocess.run(["git", "-C", "/repo", "worktree", "remove", "--force", scratch], capture_output=True)
 print(json.dumps(res, indent=1))
 json.dump(res, open(dst + "/confirm.json", "w"), indent=1)
